@@ -110,14 +110,17 @@ def hash_prepare_optimize(optimize):
 
 
 def hash_contraction(inputs, output, size_dict, optimize, **kwargs):
-    """Compute a hash key for the specified contraction."""
+    """Compute a hashable key for the specified contraction."""
     optimize = hash_prepare_optimize(optimize)
     kwargs = frozenset(kwargs.items())
-    return (
-        hash((inputs, output, tuple(size_dict.items()), optimize, kwargs)),
-        # add this as a basic way to decrease collisions
-        len(inputs),
-    )
+    # n.b. return the full tuple rather than ``hash`` of it, so that cache
+    # lookups compare the actual contraction and two different contractions
+    # whose hashes collide, e.g. ``hash((-1, -2)) == hash((-2, -1))``, can
+    # never be handed each other's cached path or expression
+    key = (inputs, output, tuple(size_dict.items()), optimize, kwargs)
+    # check early that everything is hashable
+    hash(key)
+    return key
 
 
 def normalize_input(
